@@ -264,6 +264,9 @@ func parsePossibilityStage
   requires !isws(peekAt(input.Data, input.Index)) && peekAt(input.Data, input.Index) != 0 && peekAt(input.Data, input.Index) != 62
   ensures input.Index >= old(input.Index) && input.Index <= len(input.Data)
   ensures result == nil ==> input.Index > old(input.Index)
+  // success appends exactly one stage
+  ensures result == nil ==> len(stageSet.Stages) == old(len(stageSet.Stages)) + 1
+  ensures result != nil ==> len(stageSet.Stages) == old(len(stageSet.Stages))
   modifies input.Index, stageSet.Stages
   loop 1:
     invariant input.Index >= old(input.Index) && input.Index <= len(input.Data)
@@ -275,9 +278,13 @@ func parsePossibilityStageSet
   requires peekAt(input.Data, input.Index) == 60
   ensures input.Index >= old(input.Index) && input.Index <= len(input.Data)
   ensures result == nil ==> input.Index > old(input.Index) && input.Data[input.Index - 1] == 62
+  // (C05) a profile list without a profile ("<>", "< >") is no restriction and leaves no trace: whatever is appended
+  // has at least one stage, so that rendering it and parsing again gives the same structure
+  ensures len(possi.StageSets) == old(len(possi.StageSets)) || (len(possi.StageSets) == old(len(possi.StageSets)) + 1 && len(possi.StageSets[len(possi.StageSets) - 1].Stages) >= 1)
   modifies input.Index, possi.StageSets
   loop 1:
     invariant input.Index > old(input.Index) && input.Index <= len(input.Data)
+    invariant len(stageSet.Stages) >= 0 && possi.StageSets == old(possi.StageSets)
     decreases len(input.Data) - input.Index
 
 func parsePossibilityControllers
@@ -434,6 +441,6 @@ property C04: (*input).Peek, (*input).Next, eatWhitespace, parsePossibilityOpera
   parsePossibilityArch, parsePossibilityArchs, parsePossibilityStage, parsePossibilityStageSet, parsePossibilityControllers,
   parseMultiarch, parseSubstvar, parsePossibility, parseRelation, parseDependency, Parse
 
-property C05: lemma idx_least, lemma idx_is, lemma idx_none, lemma render2, lemma render3, Arch.String[rt], parseArchInto, ParseArch, (*Arch).UnmarshalControl
+property C05: parsePossibilityStage, parsePossibilityStageSet, lemma idx_least, lemma idx_is, lemma idx_none, lemma render2, lemma render3, Arch.String[rt], parseArchInto, ParseArch, (*Arch).UnmarshalControl
 
 @*/
